@@ -55,7 +55,7 @@ def _case(draw):
     elif form == 'list1':
         sel = [draw(st.integers(0, D - 1))]
     elif form == 'list':
-        sel = draw(st.lists(st.integers(0, D - 1), min_size=1, max_size=D))
+        sel = draw(st.lists(st.integers(0, D - 1), min_size=1, max_size=D + 2))      # may repeat channels, beyond D entries
     else:
         sel = list(range(D))
     spell = [draw(st.booleans()) for _ in sel]      # True = by name
@@ -93,7 +93,7 @@ def _case(draw):
     if over and draw(st.booleans()):
         over['W'] = draw(st.sampled_from([0, 0.0, 0.0, 0.5]))      # an explicit zero is a value, not "not given"
     seq = draw(st.sampled_from(['list', 'list', 'tuple']))
-    return dict(spec=spec, convert=convert, m=draw(st.floats(0.9, 1.2)), b=draw(st.floats(1, 5)), seq=seq,
+    return dict(np_ints=draw(st.sampled_from([False, False, True])), spec=spec, convert=convert, m=draw(st.floats(0.9, 1.2)), b=draw(st.floats(1, 5)), seq=seq,
                 form=form, sel=sel, spell=spell, nbins=nbins, scale=scale, over=over, derived=draw(st.sampled_from([None, None, None, ['slice', 1], ['slice', 2], ['list', 1], ['perm', 1], ['permname', 2]])))
 
 
@@ -178,6 +178,9 @@ def check(case, obs):
     res = list(d.resolution())
     arr = np.asarray(d)
     before = fingerprint(d)
+    if case.get('np_ints') and isinstance(nbins, int):
+        nbins = np.int64(nbins)                     # a bin count computed with NumPy is an integer like any other
+        obs.label('nbins:numpy_int')
     args_before = repr((ch_arg, nbins, scale, kw))
     out = call(d.hist_bins, ch_arg, nbins, scale, **kw)
     after = fingerprint(d)
